@@ -193,6 +193,19 @@ func hostileValue(name string, n int) any {
 		return map[any]int{"a": 1, 2: 2}
 	case "map-structkey":
 		return map[jgen.EmbA]int{{A: 1}: 1}
+	case "rec-map-type":
+		return jgen.RecM{"a": {"b": nil, "c": {}}}
+	case "rec-slice-type":
+		return jgen.RecS{{}, nil, {{}}}
+	case "rec-mapslice-type":
+		return struct {
+			X map[int]jgen.RecMS
+			P *jgen.RecS
+		}{X: map[int]jgen.RecMS{1: {"k": {nil, {}}}}}
+	case "rec-map-type-cycle":
+		m := jgen.RecM{}
+		m["self"] = m
+		return m
 	case "nan":
 		return []any{nanF(), float32(nanF()), map[string]float64{"x": nanF()}}
 	case "chan-ptr":
@@ -206,7 +219,7 @@ func nanF() float64 { var z float64; return z / z }
 
 var hostileNames = []string{"ptr-cycle", "slice-cycle", "map-cycle", "intmap-cycle", "iface-cycle", "mixed-cycle", "struct-map-cycle", "deep-slice", "deep-map", "deep-ptr", "deep-kids",
 	"unsupported-struct", "unsupported-in-any", "nil", "typed-nil-ptr", "typed-nil-map", "nil-in-any", "array1-ptr", "array1-ptr-nil", "struct-array1-ptr", "array1-map", "array1-array1-ptr",
-	"struct-struct-ptr", "struct-ptr-nil", "map-ptrkey-text", "map-ptrkey-plain", "map-ifacekey", "map-structkey", "nan", "chan-ptr"}
+	"struct-struct-ptr", "struct-ptr-nil", "map-ptrkey-text", "map-ptrkey-plain", "map-ifacekey", "map-structkey", "nan", "chan-ptr", "rec-map-type", "rec-slice-type", "rec-mapslice-type", "rec-map-type-cycle"}
 
 // ------------------------------------------------------------------ execution
 
